@@ -443,10 +443,99 @@ func Or(a, b *Term) *Term {
 			return b
 		}
 	}
+	if r := orDisjoint(a, b); r != nil {
+		return r
+	}
 	if a.ID > b.ID {
 		a, b = b, a
 	}
 	return mk(&Term{Op: OpOr, W: a.W, Args: []*Term{a, b}})
+}
+
+// A term as a most-significant-first list of segments; t == nil means n zero bits.
+type bitSeg struct {
+	t *Term
+	n int
+}
+
+func segmentsOf(t *Term, out []bitSeg) []bitSeg {
+	switch t.Op {
+	case OpConst:
+		if t.Val == 0 {
+			return append(out, bitSeg{nil, t.W})
+		}
+	case OpZExt:
+		out = append(out, bitSeg{nil, t.W - t.Args[0].W})
+		return segmentsOf(t.Args[0], out)
+	case OpConcat:
+		out = segmentsOf(t.Args[0], out)
+		return segmentsOf(t.Args[1], out)
+	}
+	return append(out, bitSeg{t, t.W})
+}
+
+// orDisjoint rewrites a|b as a concatenation when, at every bit, at least one side is a known zero
+// (the shape produced by assembling an integer from its bytes: b0<<56 | b1<<48 | ...).
+func orDisjoint(a, b *Term) *Term {
+	sa := segmentsOf(a, nil)
+	sb := segmentsOf(b, nil)
+	hasZero := func(s []bitSeg) bool {
+		for _, x := range s {
+			if x.t == nil {
+				return true
+			}
+		}
+		return false
+	}
+	if !hasZero(sa) || !hasZero(sb) {
+		return nil
+	}
+	var res *Term
+	i, j := 0, 0
+	ra, rb := sa[0].n, sb[0].n // remaining bits of the current segments
+	for i < len(sa) && j < len(sb) {
+		n := min(ra, rb)
+		piece := func(s bitSeg, rem int) *Term {
+			if s.t == nil {
+				return nil
+			}
+			// the top `rem` bits of s remain; take the top n of those
+			hi := rem - 1
+			return Extract(s.t, hi, hi-n+1)
+		}
+		pa, pb := piece(sa[i], ra), piece(sb[j], rb)
+		var p *Term
+		switch {
+		case pa == nil && pb == nil:
+			p = BV(n, 0)
+		case pa == nil:
+			p = pb
+		case pb == nil:
+			p = pa
+		default:
+			return nil
+		}
+		if res == nil {
+			res = p
+		} else {
+			res = Concat(res, p)
+		}
+		ra -= n
+		rb -= n
+		if ra == 0 {
+			i++
+			if i < len(sa) {
+				ra = sa[i].n
+			}
+		}
+		if rb == 0 {
+			j++
+			if j < len(sb) {
+				rb = sb[j].n
+			}
+		}
+	}
+	return res
 }
 func Xor(a, b *Term) *Term {
 	chkW(a, b)
@@ -553,6 +642,14 @@ func Concat(hi, lo *Term) *Term {
 		}
 		if x == 0 {
 			return ZExt(lo, w)
+		}
+	}
+	// concat(concat(p, extract(h,m+1,x)), extract(m,l,x)) = concat(p, extract(h,l,x))
+	if hi.Op == OpConcat && lo.Op == OpExtract && hi.Args[1].Op == OpExtract && hi.Args[1].Args[0] == lo.Args[0] {
+		hl := int(hi.Args[1].Val & 0xff)
+		lh := int(lo.Val >> 8)
+		if hl == lh+1 {
+			return Concat(hi.Args[0], Concat(hi.Args[1], lo))
 		}
 	}
 	// concat(extract(h,m+1,x), extract(m,l,x)) = extract(h,l,x)
